@@ -3,6 +3,8 @@ package minibus
 import (
 	"context"
 	"sync"
+
+	"github.com/smart-core-os/sc-golang/internal/verifhook"
 )
 
 type Bus struct {
@@ -19,10 +21,12 @@ func (b *Bus) Send(ctx context.Context, event any) (ok bool) {
 	}
 	b.listenerM.RUnlock()
 
+	verifhook.At("bus.send.afterSnapshot")
 	needGc := false
 
 	// send the event to each listener that's not closed
 	for _, l := range listeners {
+		verifhook.At("bus.send.beforeListener")
 		ok, active := l.send(ctx, event)
 		if !ok {
 			return false
@@ -67,6 +71,7 @@ func (b *Bus) Listen(ctx context.Context) <-chan any {
 		l.stop()
 	}()
 
+	verifhook.At("bus.listen.beforeRegister")
 	// store the listener
 	b.listenerM.Lock()
 	defer b.listenerM.Unlock()
@@ -102,6 +107,7 @@ func (l *listener) send(ctx context.Context, event any) (ok bool, active bool) {
 }
 
 func (l *listener) stop() {
+	verifhook.At("bus.stop.begin")
 	l.m.Lock()
 	defer l.m.Unlock()
 	if l.ch != nil {
